@@ -354,7 +354,40 @@ def z_ifexp(ex, st, e):
     return ZScal()
 
 
+def np_array(ex, st, node, args, kw):
+    """np.array / np.asarray / np.copy of an array: same shape; same kind unless dtype= is given"""
+    a = args[0] if args else None
+    if getattr(a, 'is_zarr', False) and type(a) is ZArr:
+        kind = a.kind
+        dt = kw.get('dtype')
+        if dt is not None:
+            z = np_zeros(ex, st, node, [a.shape], {'dtype': dt})
+            kind = z.kind
+        return ZArr(a.shape, kind)
+    raise Unsupported(f'np.array of {type(a).__name__}')
+
+
+def z_augassign(ex, st, node, cur, res, rhs=None):
+    """`a op= b` on an ndarray writes the result into a: NumPy refuses (UFuncTypeError) when the result kind does not fit"""
+    if not ex.check_dtypes or not getattr(cur, 'is_zarr', False) or not getattr(res, 'is_zarr', False):
+        return
+    kr, kc = kind_of(res), kind_of(cur)
+    if isinstance(node.op, ast.Div) and kc == 'int':
+        kr = 'real' if kr == 'int' else kr
+    ok = kind_le(kr, kc)
+    if ok and kc not in KIND_ORDER:
+        # array of unknown kind (a parameter): a true division or a real / complex operand gives at least a real result
+        low = 'real' if isinstance(node.op, ast.Div) else 'int'
+        if rhs is not None and kind_of(rhs) in KIND_ORDER:
+            low = low if KIND_ORDER[low] >= KIND_ORDER[kind_of(rhs)] else kind_of(rhs)
+        if low != 'int':
+            kr = low; ok = kind_le(low, kc)
+    ex.obligations.append(Obligation('dtype', f'{ast.unparse(node)[:50]}: in-place operator keeps the kind of the array ({kr} into {kc})', node.lineno, ok,
+                                     '' if ok else f'the result of kind {kr} cannot be written into an array of kind {kc}: NumPy raises UFuncTypeError (or drops a part)'))
+
+
 LIB_Z = {
+    'augassign': z_augassign, 'np.array': np_array, 'np.asarray': np_array, 'np.copy': np_array,
     'ifexp': z_ifexp,
     'getitem': z_getitem, 'setitem': z_setitem, 'binop': z_binop, 'compare': z_compare, 'len': z_len, 'neg': z_neg,
     'np.zeros': np_zeros, 'np.linalg.norm': np_norm, 'np.vdot': np_vdot, 'np.finfo': np_finfo, 'np.exp': np_exp,
